@@ -161,6 +161,42 @@ def overflow(wd, rng, page_size=512, tag="ovf"):
     return db
 
 
+def alias_db(wd, rng, page_size=512, tag="alias"):
+    """leaves on which the cell of a row that spills into ONE overflow page lies physically in front of a large in-page
+    cell: the bytes behind the spilled cell's local part are as many as the overflow page's share of the payload (the
+    layout on which assembling a payload in place would write over the neighbouring cell).  Two rows per table, the
+    large one inserted first; sizes swept around the point where both still share a leaf."""
+    path = os.path.join(wd, "%s-%d.db" % (tag, page_size))
+    c = _mk(path, page_size)
+    db = DB(path, page_size, tag)
+    u = page_size
+    x = u - 35
+    m = ((u - 12) * 32 // 255) - 23
+    n = 0
+    c.execute("BEGIN")
+    for big in range(x - m - 24, x - m + 8, 4):
+        for spill in (x + 1, x + 2, x + 9):
+            name = "al%d" % n
+            n += 1
+            c.execute("CREATE TABLE %s(v)" % name)
+            c.execute("INSERT INTO %s(rowid, v) VALUES(1, ?)" % name, (bytes([(7 * j + n) % 251 for j in range(big)]),))
+            c.execute("INSERT INTO %s(rowid, v) VALUES(2, ?)" % name, (bytes([(3 * j + n) % 253 for j in range(spill - 4)]),))
+            db.tables[name] = dict(kind="rowid", cols=["v"])
+    # the same on index leaves (a WITHOUT ROWID table and an ordinary index): thresholds of index cells
+    xi = ((u - 12) * 64 // 255) - 23
+    for big in range(max(8, u - 60 - 2 * m - xi), u - 60 - m, max(4, (xi) // 6))[:6]:
+        name = "aw%d" % n
+        n += 1
+        c.execute("CREATE TABLE %s(k PRIMARY KEY, v) WITHOUT ROWID" % name)
+        c.execute("INSERT INTO %s VALUES(?, ?)" % name, ("b" + "k" * 6, bytes([(5 * j + n) % 251 for j in range(big)])))
+        c.execute("INSERT INTO %s VALUES(?, ?)" % name, ("a" + "k" * 6, bytes([(11 * j + n) % 241 for j in range(xi + 2)])))
+        db.tables[name] = dict(kind="norowid", cols=["k", "v"], pk=[("k", "", False)])
+    c.execute("COMMIT")
+    c.close()
+    db.refresh()
+    return db
+
+
 def mixed(wd, rng, page_size=512, rows=700, tag="mix"):
     """mixed storage classes, NULLs and long duplicate runs in indexed columns"""
     path = os.path.join(wd, "%s-%d.db" % (tag, page_size))
@@ -258,6 +294,11 @@ def corpus(run, name, which=("deep", "wr", "ipk", "ovf", "mix", "tiny", "misc", 
         dbs.append(overflow(wd, rng, 512))
         if not quick:
             dbs.append(overflow(wd, rng, 4096, tag="ovf4k"))
+    if "alias" in which:
+        dbs.append(alias_db(wd, rng, 512))
+        dbs.append(alias_db(wd, rng, 4096, tag="alias4k"))
+        if not quick:
+            dbs.append(alias_db(wd, rng, 1024, tag="alias1k"))
     if "mix" in which:
         dbs.append(mixed(wd, rng, 512, 500 if quick else 3000))
     if "tiny" in which:
